@@ -305,6 +305,19 @@ theorem exec_good : ∀ (f : Nat), IH sc f := by
         | nop =>
           simp only [leaf_andThen]
           exact hK _ none hI (NFle.refl _) hwf hg
+        | gh g =>
+          simp only [andThen_assoc]
+          refine step_good sc ih (by exact hI) (by exact hself) (by exact hwf) (by exact hg) (NFle.refl _) ?_
+          intro w1 v hI1 hle1 hwf1 hg1 hv
+          simp only [ite_andThen]
+          refine good_ite (fun _ => ?_) (fun _ => ?_)
+          · cases g <;> (try simp only [ite_andThen, leaf_andThen, raise_andThen]) <;> first
+              | exact hK _ none (by exact hI1) hle1 (by exact hwf1) (by exact hg1)
+              | exact good_ite (fun _ => good_raise hle1 (by exact hg1) (by exact hwf1))
+                  (fun _ => hK _ none (by exact hI1) hle1 (by exact hwf1) (by exact hg1))
+          · refine step_good sc ih (by exact hI1) (by exact hle1 _ hself) (by exact hwf1) (by exact hg1) hle1 ?_
+            intro w2 v2 hI2 hle2 hwf2 hg2 hv2
+            exact hK _ none hI2 (hle1.trans hle2) hwf2 hg2
         | ret0 =>
           simp only [leaf_andThen]
           exact hK { w with ret0 := self :: w.ret0.filter (· ≠ self) } none (by exact hI) (NFle.refl _) (by exact hwf) (by exact hg)
